@@ -5,7 +5,8 @@ use crate::engine::{CaseCtx, CaseResult, Engine, Failure, Tier};
 use crate::gen::dicts::{dict_strategy, DictSpec};
 use crate::gen::frames::{frame_case_custom, FrameCase};
 use crate::model::frame::{self, WalkOpts};
-use crate::model::synth::Rng;
+use crate::gen::framespec::{comp_strategy, framespec_strategy};
+use crate::model::synth::{synth, BlockSpec, CompSpec, FrameSpec, OffSpec, Rng, SeqSpec};
 use crate::{ensure, fail};
 use proptest::prelude::*;
 use ringops::decode_drive::{drive, good_frame, output_bound, Entry};
@@ -303,6 +304,184 @@ fn finish(ctx: &mut CaseCtx, bytes: &[u8], reached: bool, errored: bool, entry: 
     Ok(())
 }
 
+// ------------------------------------------------------------------------------------------------
+// hostile dictionaries: a dictionary that still parses but lies (repeat offsets of 0 / beyond its
+// content / huge, damaged entropy tables, content cut to a few bytes), used by a frame that was
+// built against the honest dictionary and leans on exactly those parts (first sequences use the
+// repeat offsets with and without literals, Repeat-mode tables, treeless literals)
+
+#[derive(Clone, Copy, Debug, Serialize, Deserialize)]
+pub enum OffPick {
+    Keep,
+    Zero,
+    Small(u8),
+    /// content length + d
+    Content(i8),
+    /// 2^(24 + k%8) - 1
+    Huge(u8),
+    Raw(u32),
+}
+
+#[derive(Clone, Debug, Serialize, Deserialize)]
+pub struct HostileDictCase {
+    pub dict: DictSpec,
+    pub offsets: [OffPick; 3],
+    /// applied to the entropy-table bytes only
+    pub entropy_muts: Vec<Mutation>,
+    /// keep only this many content bytes
+    pub content_keep: Option<u16>,
+    pub first: CompSpec,
+    pub rest: FrameSpec,
+    pub entry: Entry,
+    pub force: bool,
+}
+
+fn rep_first() -> impl Strategy<Value = CompSpec> {
+    (
+        comp_strategy(12, false),
+        prop::collection::vec((prop_oneof![Just(0u32), 1u32..=12], 3u32..=40, 1u8..=3), 1..=5),
+        prop_oneof![Just([0u8, 0, 0]), Just([3u8, 3, 3]), [0u8..=3, 0u8..=3, 0u8..=3]],
+        prop_oneof![Just(0u8), Just(2u8), Just(3u8)],
+        30u32..=400,
+        any::<u32>(),
+    )
+        .prop_map(|(mut c, seqs, modes, lit_mode, len, seed)| {
+            c.seqs = seqs.into_iter().map(|(ll, ml, r)| SeqSpec { ll, ml, off: OffSpec::Rep(r) }).collect();
+            c.modes = modes;
+            c.lit_mode = lit_mode;
+            c.literals = crate::gen::data::DataSpec { kind: 2, len, seed, a: 3, b: 9 }.render();
+            c
+        })
+}
+
+fn hostile_dict_strategy() -> impl Strategy<Value = HostileDictCase> {
+    let pick = || {
+        prop_oneof![
+            3 => Just(OffPick::Keep),
+            4 => Just(OffPick::Zero),
+            2 => (1u8..=9).prop_map(OffPick::Small),
+            3 => (-2i8..=9).prop_map(OffPick::Content),
+            2 => any::<u8>().prop_map(OffPick::Huge),
+            1 => any::<u32>().prop_map(OffPick::Raw),
+        ]
+    };
+    (
+        dict_strategy(),
+        [pick(), pick(), pick()],
+        prop::collection::vec(mutation_strategy(), 0..=2),
+        prop::option::weighted(0.3, prop_oneof![0u16..=9, 0u16..=300]),
+        rep_first(),
+        framespec_strategy(4, 40, false),
+        entry_strategy(),
+        prop::bool::weighted(0.2),
+    )
+        .prop_map(|(mut dict, offsets, entropy_muts, content_keep, first, rest, entry, force)| {
+            // a few hundred distinct honest dictionaries (memoised by the builder): the variety that
+            // matters here is in the lies told about them
+            dict.seed %= 16;
+            dict.size = [64, 300, 1500, 6000][(dict.size % 4) as usize];
+            dict.id = 1 + dict.id % 3;
+            dict.level = 3;
+            dict.vocab %= 2;
+            dict.rep_patch = None;
+            HostileDictCase { dict, offsets, entropy_muts, content_keep, first, rest, entry, force }
+        })
+}
+
+/// (hostile dictionary bytes, frame built against the honest dictionary, dictionary id)
+pub fn build_hostile(case: &HostileDictCase) -> Option<(Vec<u8>, Vec<u8>, u32)> {
+    let b = case.dict.build().ok()?;
+    let m = frame::parse_dict(&b.bytes).ok()?;
+    if m.entropy_len < 8 + 12 || m.entropy_len > b.bytes.len() {
+        return None;
+    }
+    let mut spec = case.rest.clone();
+    spec.blocks.insert(0, BlockSpec::Comp(case.first.clone()));
+    spec.dict_id_bytes = 4;
+    spec.single_segment = false;
+    let frame_bytes = synth(&spec, Some(&m), false).bytes;
+    // hostile copy
+    let head = b.bytes[..8].to_vec();
+    let mut tables = b.bytes[8..m.entropy_len - 12].to_vec();
+    let mut offs = b.bytes[m.entropy_len - 12..m.entropy_len].to_vec();
+    let mut content = b.bytes[m.entropy_len..].to_vec();
+    apply(&mut tables, &case.entropy_muts, &frame_bytes);
+    if let Some(k) = case.content_keep {
+        content.truncate(k as usize);
+    }
+    for (i, pck) in case.offsets.iter().enumerate() {
+        let v: Option<u32> = match pck {
+            OffPick::Keep => None,
+            OffPick::Zero => Some(0),
+            OffPick::Small(x) => Some(*x as u32),
+            OffPick::Content(d) => Some((content.len() as i64 + *d as i64).max(0) as u32),
+            OffPick::Huge(k) => Some((1u32 << (24 + k % 8)).wrapping_sub(1)),
+            OffPick::Raw(x) => Some(*x),
+        };
+        if let Some(v) = v {
+            offs[i * 4..i * 4 + 4].copy_from_slice(&v.to_le_bytes());
+        }
+    }
+    let mut hostile = head;
+    hostile.extend_from_slice(&tables);
+    hostile.extend_from_slice(&offs);
+    hostile.extend_from_slice(&content);
+    Some((hostile, frame_bytes, m.id))
+}
+
+fn check_hostile_dict(case: &HostileDictCase, ctx: &mut CaseCtx) -> CaseResult {
+    let Some((hostile, bytes, id)) = build_hostile(case) else {
+        ctx.feat("skipped:dictionary_not_built");
+        return Ok(());
+    };
+    let mut dec = FrameDecoder::new();
+    let parsed = match Dictionary::decode_dict(&hostile) {
+        Ok(d) => d,
+        Err(_) => {
+            ctx.feat("hostile_dict:rejected_by_parser");
+            ctx.set_hash_bytes(&[&hostile]);
+            return Ok(());
+        }
+    };
+    ctx.feat("hostile_dict:parsed_and_registered");
+    ctx.feat_if(case.offsets.iter().any(|o| matches!(o, OffPick::Zero)), "hostile_dict:zero_repeat_offset");
+    ctx.feat_if(case.offsets.iter().any(|o| matches!(o, OffPick::Content(d) if *d > 0) || matches!(o, OffPick::Huge(_))), "hostile_dict:repeat_offset_beyond_content");
+    ctx.feat_if(!case.entropy_muts.is_empty(), "hostile_dict:entropy_tables_damaged");
+    ctx.feat_if(case.content_keep.is_some(), "hostile_dict:content_cut_short");
+    ctx.feat_if(case.first.seqs.first().map(|q| q.ll > 0).unwrap_or(false), "hostile_dict:first_sequence_has_literals");
+    let _ = dec.add_dict(parsed);
+    let bound = output_bound(&bytes);
+    let (reached, errored) = if case.force {
+        // the caller names the dictionary instead of the frame header
+        let mut src = &bytes[..];
+        match dec.reset(&mut src) {
+            Ok(()) => {
+                let _ = dec.force_dict(id);
+                let r = dec.decode_blocks(&mut src, BlockDecodingStrategy::UptoBytes(1 << 20));
+                let _ = dec.collect();
+                (true, r.is_err())
+            }
+            Err(_) => (false, true),
+        }
+    } else {
+        drive(&mut dec, &bytes, &case.entry, bound)
+    };
+    let good = good_frame();
+    let mut src = &good[..];
+    if let Err(e) = dec.reset(&mut src) {
+        fail!("reuse_after_error_failed", "reset with a known-good frame fails after a hostile dictionary frame: {e}");
+    }
+    if let Err(e) = dec.decode_blocks(&mut src, BlockDecodingStrategy::All) {
+        fail!("reuse_after_error_failed", "decoding a known-good frame after a hostile dictionary frame fails: {e}");
+    }
+    let out = dec.collect().unwrap_or_default();
+    ensure!(out == b"hello" && dec.is_finished(), "reuse_after_error_wrong", "known-good frame decodes to {:?} after a hostile dictionary frame", out);
+    ctx.feat(if errored { "outcome:error" } else { "outcome:ok" });
+    ctx.nontrivial = reached;
+    ctx.set_hash_bytes(&[&hostile, &bytes, format!("{:?}{}", case.entry, case.force).as_bytes()]);
+    Ok(())
+}
+
 /// Dictionary parser on arbitrary / mutated bytes
 fn check_dict(case: &(DictSpec, Vec<Mutation>, u16), ctx: &mut CaseCtx) -> CaseResult {
     let Ok(b) = case.0.build() else { return Ok(()) };
@@ -317,13 +496,15 @@ fn check_dict(case: &(DictSpec, Vec<Mutation>, u16), ctx: &mut CaseCtx) -> CaseR
 }
 
 pub fn run(eng: &Engine) {
-    eng.set_rule("deterministic layer: valid frames (three sources), blind frames with a valid magic and concatenations, mutated by a format-aware mutator that knows the walker's field map (descriptor, window/size/id bytes, block headers, literals headers, tree descriptions, jump tables, sequence counts, mode bytes, table descriptions, last byte of bit streams, checksum) plus bit flips, truncation, extension, splicing and crossing with another frame; decoded through StreamingDecoder, decode_blocks (All/UptoBlocks/UptoBytes with collect/read/collect_to_writer or no drain), decode_from_to, decode_all, decode_all_to_vec, optionally with a mutated dictionary that still parses and with a caller-set window limit; afterwards the SAME decoder is reset with a known-good frame and must decode it; oracle: no panic, no crash, per-case deadline (a reproducible overrun is a violation of kind hang), correct reuse; non-trivial = the input passes frame-header parsing and reaches block decoding; distinct by (input, entry) hash. The coverage-guided layer (libFuzzer + ASan + debug assertions over decode_any / decode_struct / dict_any) is run by the check script and reported in the evidence under coverage.fuzz.");
+    eng.set_rule("deterministic layer: valid frames (three sources), blind frames with a valid magic and concatenations, mutated by a format-aware mutator that knows the walker's field map (descriptor, window/size/id bytes, block headers, literals headers, tree descriptions, jump tables, sequence counts, mode bytes, table descriptions, last byte of bit streams, checksum) plus bit flips, truncation, extension, splicing and crossing with another frame; decoded through StreamingDecoder, decode_blocks (All/UptoBlocks/UptoBytes with collect/read/collect_to_writer or no drain), decode_from_to, decode_all, decode_all_to_vec, optionally with a mutated dictionary that still parses and with a caller-set window limit; afterwards the SAME decoder is reset with a known-good frame and must decode it; plus a hostile-dictionary stage (a dictionary that still parses but carries repeat offsets of 0 / beyond its content / huge, damaged entropy tables or a content cut short, used - by id or forced - by a frame built against the honest dictionary whose first sequences use the repeat offsets with and without literals, Repeat-mode tables and treeless literals); oracle: no panic, no crash, per-case deadline (a reproducible overrun is a violation of kind hang), correct reuse; non-trivial = the input passes frame-header parsing and reaches block decoding; distinct by (input, entry) hash. The coverage-guided layer (libFuzzer + ASan + debug assertions over decode_any / decode_struct / dict_any) is run by the check script and reported in the evidence under coverage.fuzz.");
     eng.assume("output is drained with bounded budgets and capped at 64 MiB per case so that legitimate expansion (RLE blocks) cannot be mistaken for a hang; decode_blocks(All) is used only when the frame's block headers bound the output by 64 MiB");
     let tier = eng.tier;
     let n = eng.tier.pick(60_000, 3_000_000);
     eng.run_stage("mutated_frames", n, || case_strategy(tier), check);
     let nd = eng.tier.pick(10_000, 300_000);
     eng.run_stage("dictionary_parser", nd, || (dict_strategy(), prop::collection::vec(mutation_strategy(), 0..=4), any::<u16>()), check_dict);
+    let nh = eng.tier.pick(30_000, 1_000_000);
+    eng.run_stage("hostile_dictionaries", nh, hostile_dict_strategy, check_hostile_dict);
     if !eng.has_violation() {
         export_seeds(eng);
     }
@@ -435,6 +616,21 @@ fn export_seeds(eng: &Engine) {
             }
         }
     }
+    // hostile dictionaries from the stage above, in the dict_any layout
+    let hs = hostile_dict_strategy();
+    for i in 0..160u32 {
+        let c = hs.new_tree(&mut runner).unwrap().current();
+        if let Some((d, f, _)) = build_hostile(&c) {
+            if d.len() <= 7000 && d.len() + f.len() <= 15_000 {
+                let mut v = (d.len() as u16).to_le_bytes().to_vec();
+                v.push(i as u8);
+                v.extend_from_slice(&d);
+                v.extend_from_slice(&f);
+                let _ = std::fs::write(root.join(format!("dict_any/g{i:03}")), v);
+                nd += 1;
+            }
+        }
+    }
     eng.set_extra("fuzz_seeds_exported", json!({"decode_any": n, "dict_any": nd, "dir": root}));
 }
 
@@ -442,6 +638,7 @@ pub fn replay(eng: &Engine, stage: &str, case: &Value) -> CaseResult {
     match stage {
         "mutated_frames" => eng.replay_value(stage, case, check),
         "dictionary_parser" => eng.replay_value(stage, case, check_dict),
+        "hostile_dictionaries" => eng.replay_value(stage, case, check_hostile_dict),
         _ => Err(Failure::new("machinery", format!("unknown stage {stage}"))),
     }
 }
